@@ -456,6 +456,25 @@ func (h *vgHarness) exec(i int, st vgStep) vgEvent {
 		h.servers[st.E].stop()
 	case "up":
 		h.servers[st.E].start()
+	case "sever":
+		// the application closes the connection it handed out through DialFunc for this endpoint itself
+		var cc *grpc.ClientConn
+		h.mu.Lock()
+		for k := len(h.conns) - 1; k >= 0; k-- {
+			if h.connEp[k] == st.E && h.conns[k].GetState() != connectivity.Shutdown {
+				cc = h.conns[k]
+				break
+			}
+		}
+		h.mu.Unlock()
+		if h.gme == nil || h.closed || cc == nil {
+			ev.Res = "SKIPPED"
+			break
+		}
+		ev.Res, ev.Msg = vgGuard(func() string {
+			cc.Close()
+			return "OK"
+		})
 	case "rpc":
 		if h.gme == nil || h.closed {
 			ev.Res = "SKIPPED"
